@@ -25,7 +25,7 @@ FAM_ENTRY = {"GMM": "gmm", "GSM": "gsm"}
 def run(c):
     thorough = c.tier == "thorough"
     rng = c.rng
-    gen = mc_codec(c, 2 if thorough else 1, shards=9 if thorough else 3, liveness=True if not thorough else False)
+    gen = mc_codec(c, 2 if thorough else 1, shards=9 if thorough else 3, liveness=True if not thorough else False, coverage=not thorough)
     if thorough:        # liveness on the depth-1 tree as well (the depth-2 run checks safety only)
         g1 = mc_codec(c, 1, shards=3, liveness=True)
     drv = c.build_driver("codec")
